@@ -43,6 +43,15 @@ CHECKS["C17"] = dict(level="model_checking", design="5 C17",
    note="Reference = solo execution of the same query on the same quiescent data. Unordered LIMIT: only the number of rows is compared. A member that fails alone (expired deadline) may fail in company; nobody else may.",
    technique="TLA+ trace validation (TLC) of coalesced executions of the real code + differential comparison with solo runs")
 
+CHECKS["C05"] = dict(level="exploration", design="5 C05",
+   text="spec/Data.tla gives every aggregate expression its value over a sequence of updates (exact rationals) and spec/Seq.tla the meaning of merging and restricting stored series; TLC evaluates them over enumerated expression trees x update sequences and over all pairs of series in a bounded window x every bound, and zvpure replays every case on the real expr and encoding packages: all updates into one state, every split in two and three parts merged in every order and association, operands byte-compared before and after; Merge and Truncate of real sequences compared period by period.",
+   note="No state machine here: TLC is used as an evaluator that enumerates the case space and supplies expected values. PERCENTILE, LN/LOG and SHIFT leaves are checked for the merge laws only. Quick tier samples; thorough enumerates the stated windows completely.",
+   technique="TLA+ definitions evaluated by TLC over an enumerated case space, replayed on the real code")
+CHECKS["C09"] = dict(level="exploration", design="5 C09",
+   text="spec/GenSort.tla defines the ordered result of ORDER BY (lexicographic over fields, a dimension incl. missing values, _time; ASC/DESC) as its sequence of key vectors and LIMIT/OFFSET as a slice of it; TLC enumerates row sequences, key lists and (limit, offset) pairs with the expected slices, zvpure feeds the rows to the real core.Sort / Offset / Limit operators and compares position by position, and checks that every returned row is an input row used once.",
+   note="The operators are exercised directly (the planner composes exactly these for ORDER BY / LIMIT / OFFSET); row counts <= 3, key lists <= 2 (quick) or 3 (thorough).",
+   technique="TLA+ definitions evaluated by TLC over an enumerated case space, replayed on the real code")
+
 NOT_YET = {}
 
 
